@@ -48,3 +48,69 @@ def continuation(prop="C02"):
     c.on_continue = [("only_for_a_lone_ampersand", lambda v0, v1: z3.And(skip(v0), v1.linebuffer == v0.linebuffer, v1.continued == v0.continued))]
     c.raises("only_for_leading_ampersand_without_open_continuation", lambda v0, exc, v1: z3.And(z3.BoolVal(exc == "ValueError"), illegal(v0)))
     return c
+
+
+# ------------------------------------------------------------------ marker substitution blocks of FortranReader.__next__ (C03)
+I = z3.IntSort()
+START4 = z3.Function("MATCH_START_4", S, I)
+
+
+def marker_block(which, prop="C03"):
+    """which in predocmark | predocmark_alt | docmark_alt: the `if match:` statement that rewrites the marker to the plain doc marker"""
+    from pyvc.blocks import stmt_containing
+    c = Contract("ford.reader", "FortranReader.__next__", prop)
+    c.qual_suffix = f"marker_{which}"
+    c.block_select = stmt_containing(f"tmp[1 + len(self.{which}):]")
+    c.block_select_container = "while not done"
+    sel0 = c.block_select
+
+    def select(fn):
+        loops = [n for n in ast.walk(fn) if isinstance(n, ast.While) and ast.unparse(n.test) == "not done"]
+        if len(loops) != 1:
+            from harness.loader import TargetMissing
+            raise TargetMissing("while not done")
+        fake = ast.FunctionDef(name="b", args=fn.args, body=loops[0].body, decorator_list=[], lineno=fn.lineno)
+        return sel0(fake)
+    import ast
+    c.block_select = select
+    c.dropped.append(f"block contract: the `if match:` statement handling {which} inside `while not done`")
+    c.fields = dict(RD_FIELDS)
+    c.param("self", TRef("FortranReader"))
+    c.param("line", TStr())
+    c.param("reading_predoc", TBool())
+    c.param("reading_predoc_alt", TInt())
+    c.globals["match"] = None
+    c.params["match"] = TConst(None)
+
+    class TMatch(T):
+        def fresh(self, eng, path, name):
+            return SMatch("docmark", path.env["line"].t)
+    c.params["match"] = TMatch()
+    # group(4) of the match is the comment text from the '!' on; its start index is where the comment starts (C02 unique_split obligation)
+    c.methods_extra = True
+    g4 = lambda v: z3.Function("GROUP_docmark_4", S, S)(v.line)
+    st4 = lambda v: START4(v.line)
+    mark = lambda v: z3.Select(v._e.field_array(v._p, which), v.self)
+    dmark = lambda v: z3.Select(v._e.field_array(v._p, "docmark"), v.self)
+
+    def setup(eng, path):
+        for f in (which, "docmark", "docbuffer", "reading_alt"):
+            eng.field_array(path, f)
+        path.heap._lmap("str")
+    c.extra_setup.append(setup)
+    c.requires("match_holds_and_group4_starts_with_the_marker",
+               lambda v: z3.And(z3.Function("MATCHES_docmark", S, z3.BoolSort())(v.line), z3.PrefixOf(z3.Concat(z3.StringVal("!"), mark(v)), g4(v)),
+                                st4(v) >= 0, st4(v) <= z3.Length(v.line),
+                                z3.Select(v._e.field_array(v._p, "docbuffer"), v.self) > 0, z3.Select(v._e.field_array(v._p, "docbuffer"), v.self) < v.heap.alloc0))
+    buf = lambda v: v.heap.list_get(SList(z3.Select(v._e.field_array(v._p, "docbuffer"), v.self), "str"))
+
+    def rewritten(v0):
+        g = g4(v0)
+        n = 1 + z3.Length(mark(v0))
+        return z3.Concat(z3.StringVal("!"), dmark(v0), z3.SubString(g, n, z3.Length(g) - n))
+    inline = lambda v0: z3.Length(STRIP(z3.SubString(v0.line, 0, st4(v0)))) > 0
+    c.ensures("queued_line_is_plain_marker_plus_untouched_rest",
+              lambda v0, res, v1: z3.And(z3.Not(inline(v0)), z3.Length(buf(v1)) == z3.Length(buf(v0)) + 1,
+                                         STR_OF(buf(v1)[z3.Length(buf(v0))]) == rewritten(v0), z3.SubSeq(buf(v1), 0, z3.Length(buf(v0))) == buf(v0)))
+    c.raises("inline_use_of_a_preceding_or_alternate_marker_is_rejected", lambda v0, exc, v1: z3.And(z3.BoolVal(exc in ("ValueError", "RuntimeError")), inline(v0)))
+    return c
